@@ -51,6 +51,12 @@ func (p *pg) genErr(profile string) (Config, Plan) {
 				continue
 			}
 			op.Fault = p.errFault()
+			if op.Kind == "reopen" {
+				// recovery is read-mostly: spread the fault over the calls Open makes
+				// (header reads, the tail scan, index reads, metadata load, listing)
+				op.Fault.Target = []string{"ReadAt", "ReadAt", "ReadAt", "ReadAt", "Load", "ListDir", "OpenReader", "OpenWriter", "Create", "Sync", "CommitState", "Delete"}[p.r.Intn(12)]
+				op.Fault.K = p.r.Intn(8)
+			}
 			if op.Fault.Persistent {
 				// lift the persistent fault a few ops later so the workload continues
 				j := i + 1 + p.r.Intn(4)
